@@ -60,6 +60,10 @@ def handle_output_path(ctx: Context, raw_output_path: Optional[str]) -> pathlib.
             ctx.output_path,
             generate_archive_name(),
         )
+        if output_path.exists():
+            # Generated names have a resolution of one second; never
+            # overwrite (or clean up) an archive made a moment ago.
+            raise OutputFileExists()
         return output_path
 
     # Validate the output path. It can either be a path to a directory (which
@@ -70,7 +74,10 @@ def handle_output_path(ctx: Context, raw_output_path: Optional[str]) -> pathlib.
         if output_path.is_dir():
             # Corresponds to the case where the user provides a path to a
             # directory where the archive should be stored
-            return output_path / generate_archive_name()
+            output_path = output_path / generate_archive_name()
+            if output_path.exists():
+                raise OutputFileExists()
+            return output_path
         raise OutputFileExists()
 
     elif output_path.parent.exists() and output_path.parent.is_dir():
